@@ -81,6 +81,9 @@ API_PATHS = [
     ("part.cond_or+index+value", "DataPath('l', ListValue(index=Index.greater_than(n), value=Value.is_instance(int, dict), condition=Value.less_than(t) | Value.greater_than(t)))", [("n", "int"), ("t", "int")], "dm"),
     ("part.cond_xor+key+value", "DataPath(MapValue(key=Key.not_equal_to(k), value=Value.is_instance(dict, list), condition=Value.length.equal_to(n) ^ Value.length.equal_to(2)))", [("k", "str"), ("n", "int")], "dm"),
     ("part.tree_left_chain", "DataPath(MapValue(condition=((Key.equal_to(k) | Value.is_instance(list)) & Value.truthy()) & Key.not_equal_to('l')))", [("k", "str")], "dm"),
+    ("typeargs.keys_is_instance", "DataPath(MapValue(value=Value.keys_is_instance(str)))", [], "dm"),
+    ("typeargs.keys_is_instance.tree", "DataPath('l', ListValue(value=Value.keys_is_instance(str, int) | Value.is_instance(list)))", [], "dm"),
+    ("typeargs.is_instance+dtype", "DataPath(MapValue(key=Key.dtype.equal_to(str), value=Value.is_instance(dict, list) & Value.dtype.not_equal_to(bool)))", [], "dm"),
     ("mol.key_only", "DataPath(MapOrListValue(key=i))", [("i", "int")], "dl"),
     ("mol.index_only", "DataPath(MapOrListValue(index=n))", [("n", "int")], "di"),
     ("mol.value", "DataPath(MapOrListValue(value=Value.greater_than(t)))", [("t", "int")], "dl"),
